@@ -2,7 +2,7 @@
 (***************************************************************************)
 (* Exhaustive model of C05 over a small alphabet.                          *)
 (*                                                                         *)
-(* Init picks every program of at most MaxRules rules on distinct pairs    *)
+(* Init/Setup pick every program of at most MaxRules rules on distinct pairs *)
 (* (left in Letters + left boundary, right in Letters; kern or one of the  *)
 (* eight ligature forms inserting a letter), laid out as one SKIP-0 chain  *)
 (* per left character, with and without the largest letter doubling as     *)
@@ -37,8 +37,9 @@ CONSTANTS MaxLen,
           StopAtHit,      \* TRUE: a run that meets a looping pair is cut there (except pair configurations)
           CheckFlags      \* TRUE: RefinesCursor also compares the two boundary flags of ligatures
 
-VARIABLES prog, word, nl, lp, st, n, hit
-vars == <<prog, word, nl, lp, st, n, hit>>
+VARIABLES rules,   \* the set of pairs that have a rule (chosen by Init)
+          prog, word, nl, lp, st, n, hit
+vars == <<rules, prog, word, nl, lp, st, n, hit>>
 
 Bound == (2 ^ (MaxRules + 1)) * (MaxLen + 2)
 
@@ -50,15 +51,21 @@ ToLookup(P, s) == IF s.pc \in {"main_lig_loop", "done"} THEN s ELSE ToLookup(P, 
 Words == UNION {[1..k -> Letters] : k \in 1..MaxLen}
 
 -----------------------------------------------------------------------------
-Init == /\ \E S \in RuleSets : \E a \in [S -> Acts] : \E rb \in {NonChar, MaxLetter} : prog = Layout(S, a, rb)
-        /\ word \in Words
-        \* without a left boundary program TeX's two entries coincide (main_k = non_address);
-        \* RefinesCursor then checks the implementation for both settings in the same state
-        /\ nl \in (IF prog.lbe >= 0 THEN {0, 1} ELSE {0})
-        /\ lp = LoopPairs(prog)
-        /\ st = ToLookup(prog, TeXInit(prog, word, nl, prog.rbc))
-        /\ n = 0
-        /\ hit = FALSE
+\* The instance (program, word, flags) is chosen in two steps so that TLC's workers share the
+\* enumeration: Init fixes the pairs that have a rule, Setup picks everything else.
+Init == /\ rules \in RuleSets
+        /\ prog = <<>> /\ word = <<>> /\ nl = 0 /\ lp = {} /\ n = 0 /\ hit = FALSE
+        /\ st = [pc |-> "setup"]
+
+Setup == /\ st.pc = "setup"
+         /\ \E a \in [rules -> Acts] : \E rb \in {NonChar, MaxLetter} : prog' = Layout(rules, a, rb)
+         /\ word' \in Words
+         \* without a left boundary program TeX's two entries coincide (main_k = non_address);
+         \* RefinesCursor then checks the implementation for both settings in the same state
+         /\ nl' \in (IF prog'.lbe >= 0 THEN {0, 1} ELSE {0})
+         /\ lp' = LoopPairs(prog')
+         /\ st' = ToLookup(prog', TeXInit(prog', word', nl', prog'.rbc))
+         /\ UNCHANGED <<rules, n, hit>>
 
 \* the two-character configuration of one pair: nothing but the pair itself can be looked up
 IsPairConfig == /\ prog.rbc = NonChar
@@ -69,21 +76,22 @@ ThePair == IF Len(word) = 2 THEN <<word[1], word[2]>> ELSE <<NonChar, word[1]>>
 
 AtLoopingPair == st.pc = "main_lig_loop" /\ <<st.cl, st.cr>> \in lp
 
-StepCursor == /\ st.pc \notin {"done", "diverges"} /\ n < Bound
+StepCursor == /\ st.pc \notin {"setup", "done", "diverges"} /\ n < Bound
               /\ ~(AtLoopingPair /\ StopAtHit /\ ~IsPairConfig)
               /\ st' = ToLookup(prog, TeXStep(prog, st)) /\ n' = n + 1 /\ hit' = (hit \/ AtLoopingPair)
-              /\ UNCHANGED <<prog, word, nl, lp>>
+              /\ UNCHANGED <<rules, prog, word, nl, lp>>
 
-StopDiverging == /\ st.pc \notin {"done", "diverges"} /\ n < Bound
+StopDiverging == /\ st.pc \notin {"setup", "done", "diverges"} /\ n < Bound
                  /\ AtLoopingPair /\ StopAtHit /\ ~IsPairConfig
                  /\ st' = [st EXCEPT !.pc = "diverges"] /\ hit' = TRUE
-                 /\ UNCHANGED <<prog, word, nl, lp, n>>
+                 /\ UNCHANGED <<rules, prog, word, nl, lp, n>>
 
-Next == StepCursor \/ StopDiverging
+Next == Setup \/ StepCursor \/ StopDiverging
 Spec == Init /\ [][Next]_vars
 
 -----------------------------------------------------------------------------
-Spelling == Spelled(st) = word
+Running == st.pc # "setup"
+Spelling == Running => Spelled(st) = word
 
 RefinesCursor ==
   st.pc = "done" =>
@@ -93,8 +101,8 @@ RefinesCursor ==
       /\ IF CheckFlags THEN im.out = st.out ELSE SameItems(st.out, im.out)
 
 NoHitIfDone == st.pc = "done" => ~hit
-HitIfBound  == (n = Bound /\ st.pc # "done") => (hit \/ AtLoopingPair)
-PairExact   == (IsPairConfig /\ (hit \/ AtLoopingPair)) => ThePair \in lp
+HitIfBound  == (Running /\ n = Bound /\ st.pc # "done") => (hit \/ AtLoopingPair)
+PairExact   == (Running /\ IsPairConfig /\ (hit \/ AtLoopingPair)) => ThePair \in lp
 \* evaluated once per program
-LoopReportExact == (n = 0 /\ nl = 0 /\ word = <<MinLetter>>) => BlockedPairs(prog) = lp
+LoopReportExact == (Running /\ n = 0 /\ nl = 0 /\ word = <<MinLetter>>) => BlockedPairs(prog) = lp
 =============================================================================
